@@ -21,7 +21,7 @@ func init() { core.Register(prop{}) }
 func (prop) ID() string { return "C40" }
 func (prop) Rule() string {
 	return "cases: 8-40 ops over 2-4 notifiers, 1-2 namespaces/kinds and params {-,p,q} (also the aliasing names kind=k_p / param=p): " +
-		"sub (duplicates on the same key are common), err (closes the notifier's error channel; every waiting goroutine fires), sub on a notifier whose error already fired " +
+		"sub (duplicates on the same key are common), err (closes the notifier's error channel; every waiting goroutine fires), errone (one error value: only the first parked goroutine of the notifier fires), sub on a notifier whose error already fired " +
 		"(the subscribe/unsubscribe race: the runner floods the subscribe channel first so that the select sees both channels non-empty), pub, dump. " +
 		"After every op the runner waits for quiescence (goroutine count, channel lengths, a sentinel subscription seen in the hook snapshot). " +
 		"The schedule-bit strings on sub/err lines are used by the model only. Non-trivial: >=2 subs, >=1 err and >=2 pubs; distinct by op-list hash."
@@ -35,7 +35,7 @@ var (
 )
 
 func (prop) Gen(r *core.Rand, tier string) []core.Case {
-	n := 300
+	n := 400
 	if tier == "thorough" {
 		n = 6000
 	}
@@ -43,6 +43,7 @@ func (prop) Gen(r *core.Rand, tier string) []core.Case {
 		{ID: "fix-zombie", NT: true, Ops: []string{"err z", "sub z a k - 1", "dump", "pub a k - m1", "sub n0 a k -", "err n0", "sub n0 a k p 11", "dump", "pub a k p m2"}},
 		{ID: "fix-duplicates", NT: true, Ops: []string{"sub n0 a k -", "sub n0 a k -", "sub n1 a k -", "sub n0 a k -", "dump", "pub a k - m1", "err n0 0101", "dump", "pub a k - m2", "pub a k p m3"}},
 		{ID: "fix-dup-nonadjacent", NT: true, Ops: []string{"sub n0 a k p", "sub n1 a k p", "sub n0 a k p", "sub n0 a k p", "sub n1 a k p", "err n0 1", "dump", "pub a k p m1", "err n1", "dump", "pub a k p m2"}},
+		{ID: "fix-one-error-duplicates", NT: true, Ops: []string{"sub n0 a k -", "sub n0 a k -", "sub n1 a k -", "sub n0 a k -", "sub n0 a k p", "errone n0", "dump", "pub a k p m1", "errone n0", "errone n0", "errone n0 1", "errone n0", "dump", "pub a k p m2"}},
 		{ID: "fix-namespace-key", NT: true, Ops: []string{"sub n0 a k -", "sub n1 a k p", "sub n2 a k q", "pub a k p m1", "pub a k q m2", "pub a k - m3", "pub a k_p - m4", "sub n3 a k_p -", "pub a k p m5", "pub b k p m6", "err n1", "pub a k p m7"}},
 		{ID: "fix-bad", NT: false, Ops: []string{"sub n0 a", "pub a k", "err", "sub N0 a k -", "pub a k - M", "sub n0 a k - 2", "dump x"}},
 	}
@@ -81,6 +82,11 @@ func (prop) Gen(r *core.Rand, tier string) []core.Case {
 					c.Ops = append(c.Ops, fmt.Sprintf("sub %s %s %s %s", nt, ns, kd, pa))
 				}
 			case x < 10:
+				if r.Chance(40) {
+					c.Ops = append(c.Ops, "errone "+nt+sched())
+					errs++
+					continue
+				}
 				c.Ops = append(c.Ops, "err "+nt+sched())
 				dead[nt] = true
 				errs++
@@ -125,6 +131,7 @@ type spT interface {
 type nstate struct {
 	f      *fakeN
 	dead   bool
+	order  []string       // keys of the Subscribe calls whose goroutine is still parked on Err(), in blocking order
 	calls  int            // Subscribe calls made with this notifier while alive (goroutines waiting on Err)
 	subs   map[string]int // oracle: key -> subscriptions made while alive
 	zombie map[string]int // oracle: key -> subscriptions made after the error fired
@@ -276,6 +283,7 @@ func (rn *runner) Step(ctx *core.Ctx, op []string) string {
 			st.calls++
 			rn.alive++
 			st.subs[key]++
+			st.order = append(st.order, key)
 		}
 		if !rn.settle() {
 			rn.broken = true
@@ -290,8 +298,29 @@ func (rn *runner) Step(ctx *core.Ctx, op []string) string {
 		if !st.dead {
 			st.dead = true
 			rn.alive -= st.calls
+			st.calls, st.order = 0, nil
 			close(st.f.errc)
 		}
+		if !rn.settle() {
+			rn.broken = true
+			return "sched-fail"
+		}
+		return "ok"
+	case (len(op) == 2 || len(op) == 3 && validSched(op[2])) && op[0] == "errone":
+		if !validName(op[1]) {
+			return "bad-op"
+		}
+		st := rn.notifier(op[1])
+		if st.dead || len(st.order) == 0 {
+			return "nowait"
+		}
+		// one error value: exactly one parked goroutine (the one that blocked first) receives it
+		st.f.errc <- fmt.Errorf("one error")
+		key := st.order[0]
+		st.order = st.order[1:]
+		st.calls--
+		rn.alive--
+		st.subs[key] = 0 // oracle: one unsubscription must remove every entry of the notifier on that key
 		if !rn.settle() {
 			rn.broken = true
 			return "sched-fail"
